@@ -64,7 +64,9 @@ class Fitter(object):
                  remove_resolved=False, use_memmap=True):
 
         validate_array('apertures', apertures, domain='positive', ndim=1, physical_type='angle')
-        validate_array('distance_range', distance_range, domain='positive', ndim=1, shape=(2,), physical_type='length')
+        # (the distance range is only needed for aperture-dependent models)
+        if distance_range is not None:
+            validate_array('distance_range', distance_range, domain='positive', ndim=1, shape=(2,), physical_type='length')
 
         if len(apertures) != len(filter_names):
             raise ValueError("length of apertures list should match length of filter names list")
@@ -188,8 +190,9 @@ def fit(data, filter_names, apertures, model_dir, output, n_data_min=3,
     print("")
     print("   Minimum A_V      : %9.3f mag" % av_range[0])
     print("   Maximum A_V      : %9.3f mag" % av_range[1])
-    print("   Minimum distance : %9.3f %s" % (distance_range[0].value, distance_range.unit))
-    print("   Maximum distance : %9.3f %s" % (distance_range[1].value, distance_range.unit))
+    if distance_range is not None:
+        print("   Minimum distance : %9.3f %s" % (distance_range[0].value, distance_range.unit))
+        print("   Maximum distance : %9.3f %s" % (distance_range[1].value, distance_range.unit))
     print("")
     print(" ------------------------------------------------------------")
     print("  => Output parameters")
